@@ -93,7 +93,9 @@ def check_text(arg):
                     line = obj.line
                     obj2 = fn(line, **kw)
                 except BaseException as ex:
-                    fails.append(dict(key=f"bounded/{name}:rejects-own-text:{type(ex).__name__}" + (":empty-input" if not text.strip() else ""),
+                    shape = ":empty-input" if not text.strip() else (":standard-entry-with-address-like-option" if name == "Ace" and "required one of" in str(ex)
+                                                                       and getattr(obj, "type", "") == "standard" else "")
+                    fails.append(dict(key=f"bounded/{name}:rejects-own-text:{type(ex).__name__}" + shape,
                                       what=f"{name}({text[:80]!r}) returned an object whose text {str(getattr(obj, 'line', '?'))[:80]!r} the constructor rejects: {type(ex).__name__}: {str(ex)[:100]}",
                                       inputs=dict(cls=name, text=text[:300], platform=platform),
                                       cmd=("import sys, cisco_acl\n"
@@ -116,9 +118,13 @@ def main(chk):
                             cmd="import sys; sys.path.insert(0, 'props'); import C12\nok, o = C12.replay_depth(); print(o); sys.exit(0 if ok else 1)\n")
     t0 = time.time()
     ts = texts(chk.tier, chk.seed)
-    chunks = [ts[i::64] for i in range(64)]
+    chunks = [ts[i::256] for i in range(256)]
     cases = [(c, p) for c in chunks for p in ("ios", "nxos")]
-    res = pmap(check_text, cases)
+
+    def crashed(item, why):
+        return ([dict(key="bounded/crash-or-hang", what=f"the interpreter died or hung ({why}) on one of {len(item[0])} texts, e.g. {item[0][0][:80]!r}",
+                      inputs=dict(platform=item[1], texts=[t[:200] for t in item[0][:20]]))], 0)
+    res = pmap(check_text, cases, deadline_s=240, on_crash=crashed)
     viol = 0
     seen = set()
     for fails, _ in res:
